@@ -32,4 +32,14 @@ impl SharedOneshot {
         ensures r is Some <==> old(w).slots[self.slot()].resolved, slots_only_observed(old(w), final(w))
     { unimplemented!() }
 }
-pub struct Canceled;
+impl SharedOneshot {
+    // awaiting through `&mut` (Addr as a Future): blocks until the running slot is resolved, yields Ok iff the notifier fired, and
+    // consumes this handle. Polling a consumed Shared panics.
+    #[verifier::external_body]
+    pub fn poll_ready(&mut self, Tracked(w): Tracked<&mut World>) -> (r: Result<(), Canceled>)
+        requires !old(self).consumed(),                                                                                      // @ob shared.no-poll-after-completion C14,C04
+        ensures others_ran(old(w), final(w)), final(w).slots.dom().contains(old(self).slot()), final(w).slots[old(self).slot()].resolved,
+                r is Ok <==> final(w).slots[old(self).slot()].ok,
+                final(self).slot() == old(self).slot(), final(self).consumed(),
+    { unimplemented!() }
+}
